@@ -5,11 +5,14 @@ package redis
 import (
 	"encoding/json"
 	"fmt"
+	"sort"
 	"strings"
 
 	pbredis "github.com/samaritan-proxy/samaritan/pb/config/protocol/redis"
 	"github.com/samaritan-proxy/samaritan/verifrt/sched"
 	"github.com/samaritan-proxy/samaritan/verifrt/sim/cluster"
+	"github.com/samaritan-proxy/samaritan/verifrt/sim/resp"
+	"github.com/samaritan-proxy/samaritan/verifrt/vnet"
 )
 
 // ---------------------------------------------------------------------------
@@ -534,5 +537,196 @@ func init() {
 			fmt.Printf("%s: %s\n", f.Sig, f.Detail)
 		}
 		return e.Failures
+	}})
+}
+
+// ---------------------------------------------------------------------------
+// C14 (I) pipelines: the classification of a command must hold for the bytes that finally reach a backend,
+// also when the next pipelined command has already been read into the session's buffers.
+//
+// alphabet  7 commands (forwarded read TYPE / GET, forwarded write INCR / SET, unsupported KEYS / FLUSHALL,
+//           local PING) on a key of the first master; every pipeline of 2 (quick) / 3 (thorough) of them, sent
+//           in one write, all as RESP arrays, all inline, or alternating, or one write per command while the
+//           backend connections are being re-established (requests wait in the backend client's queue while the
+//           session reads on); 3 read strategies x 3 clock steps
+// oracle    the data commands seen by all nodes are exactly the forwarded commands of the pipeline (name and
+//           arguments), writes at the owning master, reads inside the owner's group and at the master under
+//           MASTER; unsupported commands answered with an error; one reply per command
+// ---------------------------------------------------------------------------
+
+type c14pCase struct {
+	Strategy int    `json:"strategy"`
+	Encoding string `json:"encoding"`
+	Clock    int    `json:"clock_step"`
+	Cmds     []int  `json:"commands"`
+}
+
+func c14pAlphabet(key string) [][]string {
+	return [][]string{{"TYPE", key}, {"INCR", key}, {"KEYS", "*"}, {"GET", key}, {"SET", key, "7"}, {"FLUSHALL"}, {"PING"}}
+}
+
+func c14pBody(cs c14pCase) func() {
+	return func() {
+		cl := cluster.New(2, 2, 2)
+		strat := pbredis.ReadStrategy(cs.Strategy)
+		s := vfStartStack(cl, vfSvcConfig(strat, nil, 0))
+		c := s.NewClient("c0")
+		key := cl.KeyInGroup("k", 0, 0)
+		alpha := c14pAlphabet(key)
+		sched.AdvanceTime(int64(cs.Clock))
+		var raw []byte
+		var want [][]string
+		paced := strings.HasSuffix(cs.Encoding, "-paced")
+		if paced {
+			// every backend connection was lost and re-connecting takes its time: forwarded requests wait in the
+			// backend client's queue while the session goes on reading the commands that arrive one write at a time
+			for _, n := range cl.Nodes {
+				n.CloseConns()
+			}
+			sched.WaitQuiescent()
+			var addrs []string
+			for _, n := range cl.Nodes {
+				addrs = append(addrs, n.Addr)
+			}
+			vnet.HoldDials(true, addrs...)
+		}
+		mark := len(cl.Log)
+		for i, ci := range cs.Cmds {
+			args := alpha[ci]
+			inline := strings.HasPrefix(cs.Encoding, "inline") || (cs.Encoding == "alternating" && i%2 == 0)
+			var one []byte
+			if inline {
+				one = append(one, strings.Join(args, " ")+"\r\n"...)
+			} else {
+				one = resp.Encode(resp.Cmd(args...))
+			}
+			raw = append(raw, one...)
+			if n := strings.ToLower(args[0]); n != "keys" && n != "flushall" && n != "ping" {
+				want = append(want, args)
+			}
+			if paced {
+				if err := c.Send(one); err != nil {
+					sched.Fail("connection-failed / pipeline", err.Error())
+					return
+				}
+				sched.WaitQuiescent()
+			}
+		}
+		if paced {
+			vnet.HoldDials(false)
+		} else if err := c.Send(raw); err != nil {
+			sched.Fail("connection-failed / pipeline", err.Error())
+			return
+		}
+		for i, ci := range cs.Cmds {
+			got, err := c.Read()
+			if err != nil {
+				sched.Fail("reply-missing / pipeline", fmt.Sprintf("reply %d of %q: %v", i, raw, err))
+				return
+			}
+			n := strings.ToLower(alpha[ci][0])
+			if (n == "keys" || n == "flushall") && got.Kind != '-' {
+				sched.Fail("unsupported-command-not-rejected / "+n+" in a pipeline", fmt.Sprintf("%q: reply %d is %s", raw, i, got))
+			}
+		}
+		sched.WaitQuiescent()
+		data := cl.DataCmds(mark)
+		var seen []string
+		for _, e := range data {
+			seen = append(seen, strings.Join(e.Args, " "))
+			name := strings.ToLower(e.Args[0])
+			if _, fwd := c14supported()[name]; !fwd || c14never[name] {
+				sched.Fail("unsupported-command-reached-backend / "+c14group(name)+" in a pipeline", fmt.Sprintf("pipeline %q: node %s received %q", raw, e.Node, e.Args))
+				continue
+			}
+			owner := cl.OwnerOfKey(key)
+			node := cl.NodeByAddrID(e.Node)
+			switch {
+			case redis5[name] && node != owner:
+				sched.Fail(fmt.Sprintf("write-command-sent-to-non-master / %s in a pipeline / strategy=%s", name, strat), fmt.Sprintf("pipeline %q: %q arrived at %s (owner %s)", raw, e.Args, e.Node, owner.ID))
+			case node != owner && (node == nil || node.MasterOf != owner):
+				sched.Fail(fmt.Sprintf("read-command-sent-outside-slot-owner-group / %s in a pipeline / strategy=%s", name, strat), fmt.Sprintf("pipeline %q: %q arrived at %s", raw, e.Args, e.Node))
+			case node != owner && strat == pbredis.ReadStrategy_MASTER:
+				sched.Fail("read-sent-to-replica-under-MASTER / "+name+" in a pipeline", fmt.Sprintf("pipeline %q: %q arrived at %s", raw, e.Args, e.Node))
+			}
+		}
+		var exp []string
+		for _, a := range want {
+			exp = append(exp, strings.Join(a, " "))
+		}
+		sort.Strings(seen)
+		sort.Strings(exp)
+		if strings.Join(seen, "|") != strings.Join(exp, "|") {
+			sched.Fail("backends-received-other-commands-than-forwarded / pipeline", fmt.Sprintf("pipeline %q: nodes received %q, forwarded commands are %q", raw, seen, exp))
+		}
+		sched.SetOutcome(fmt.Sprintf("forwarded=%d", len(exp)))
+	}
+}
+
+func c14pipelines(env sched.Env) *sched.Report {
+	rep := &sched.Report{Outcomes: map[string]int64{}, Complete: true}
+	sigs := map[string]bool{}
+	depth := 2
+	if env.Tier == "thorough" {
+		depth = 3
+	}
+	na := len(c14pAlphabet(""))
+	var seqs [][]int
+	var gen func(cur []int)
+	gen = func(cur []int) {
+		if len(cur) >= 2 {
+			seqs = append(seqs, append([]int{}, cur...))
+		}
+		if len(cur) == depth {
+			return
+		}
+		for i := 0; i < na; i++ {
+			gen(append(cur, i))
+		}
+	}
+	gen(nil)
+	n := 0
+	for strat := 0; strat < 3; strat++ {
+		for _, enc := range []string{"resp", "inline", "alternating", "resp-paced", "inline-paced"} {
+			for clock := 1; clock <= 3; clock++ {
+				for _, seq := range seqs {
+					n++
+					if n%env.NShards != env.Shard {
+						continue
+					}
+					if sched.PastDeadline(env.Deadline) {
+						rep.Complete = false
+						return rep
+					}
+					cs := c14pCase{strat, enc, clock, seq}
+					sched.Progress(cs)
+					e := sched.RunOnce(nil, sched.Options{MaxSteps: 400000}, c14pBody(cs))
+					rep.Execs++
+					sched.Progress(nil)
+					rep.Transitions += int64(e.Steps())
+					rep.Outcomes[e.Outcome]++
+					if e.EndWhy != "main-returned" && len(e.Failures) == 0 {
+						e.Failures = append(e.Failures, sched.Failure{Sig: "execution-ended-" + e.EndWhy, Detail: fmt.Sprint(cs)})
+					}
+					for _, f := range e.Failures {
+						if !sigs[f.Sig] {
+							sigs[f.Sig] = true
+							rep.Violations = append(rep.Violations, sched.CustomViolation("C14/pipelines", f.Sig, f.Detail, cs))
+						}
+					}
+				}
+			}
+		}
+	}
+	rep.States, rep.Distinct = rep.Execs, rep.Execs
+	rep.CustomSamples = []interface{}{c14pCase{1, "inline", 2, []int{0, 2}}}
+	return rep
+}
+
+func init() {
+	sched.Register(&sched.Scenario{Name: "C14/pipelines", Custom: c14pipelines, ReplayCustom: func(in json.RawMessage) []sched.Failure {
+		var cs c14pCase
+		json.Unmarshal(in, &cs)
+		return sched.RunOnce(nil, sched.Options{MaxSteps: 400000}, c14pBody(cs)).Failures
 	}})
 }
